@@ -246,3 +246,44 @@ func ZZ_C20_Timing(kind, pattern, withInactive, panicFirst int) {
 		vrt.Assert(g.exceptions == 0, "c20-no-exception-without-panic")
 	}
 }
+
+// zzIdleBomb panics on the first idle event it sees and implements nothing else (no exception handler behind the
+// idle handler).
+type zzIdleBomb struct{ events int }
+
+func (b *zzIdleBomb) HandleEvent(ctx EventContext, ev Event) {
+	b.events++
+	if b.events == 1 {
+		panic(zzErrBomb)
+	}
+	ctx.HandleEvent(ev)
+}
+
+// ZZ_C20_PanicRouting: the pipeline's exception handler sits IN FRONT of the idle handler, the handler that panics on
+// the idle event behind it: the panic is routed as an exception through the pipeline from its head (the swallowing
+// handler sees it exactly once, with the panic value itself), the channel stays open and idle events continue.
+func ZZ_C20_PanicRouting(kind int) {
+	if !vrt.Symbolic() {
+		return
+	}
+	d := 2000000000
+	tr := newZZTransport()
+	pl := NewPipeline()
+	exc := &zzExc{mode: 2}
+	bomb := &zzIdleBomb{}
+	if kind == 0 {
+		pl.AddLast(exc, ReadIdleHandler(time.Duration(d)), bomb)
+	} else {
+		pl.AddLast(exc, WriteIdleHandler(time.Duration(d)), bomb)
+	}
+	ch := zzNewChannel(pl, tr, 0, false)
+	pl.FireChannelActive()
+	vrt.Advance(int64(d))
+	vrt.Quiesce()
+	if bomb.events >= 1 {
+		vrt.Assert(len(exc.seen) == 1 && exc.seen[0] == zzErrBomb, "c20-event-handler-panic-routed-as-one-exception")
+		vrt.Assert(tr.closes == 0 && ch.IsActive(), "c20-consumed-exception-keeps-channel-open")
+		vrt.Reach("c20-panic-routed-from-head")
+	}
+	vrt.Reach("c20-panic-routing-done")
+}
